@@ -458,6 +458,10 @@ FragSeqs == <<
   <<Def("n", I(0)), Def("len", Fn(<<"v">>, FALSE, <<Inc("n"), Ret(I(42))>>)), ExprS(C1(Id("len"), S("abc"))), ExprS(Arr(<<C1(Id("len"), S("")), Id("n")>>)), ExprS(Id("n"))>>,
   <<Def("string", Fn(<<"v">>, FALSE, <<Ret(Arr(<<Id("v")>>))>>)), ExprS(C1(Id("string"), I(5))), Def("int", I(7)), ExprS(Bin("+", Id("int"), I(1))), ExprS(C1(Id("string"), Id("int")))>>,
   \* the same through var / const declarations and a later re-assignment
+  \* two function literals with the same text are two functions: equality, use as distinct values
+  <<Def("f", Fn(<<"v">>, FALSE, <<Ret(Bin("+", Id("v"), I(1)))>>)), Def("g", Fn(<<"v">>, FALSE, <<Ret(Bin("+", Id("v"), I(1)))>>)), ExprS(Bin("==", Id("f"), Id("g"))),
+    \* (function values have no identity in the reference semantics - two functions are never equal -, so a function is not compared with itself here)
+    ExprS(Arr(<<Bin("!=", Id("f"), Id("g")), C1(Id("f"), I(1)), C1(Id("g"), I(2))>>)), ExprS(Bin("==", Id("g"), Id("f")))>>,
   \* a literal constant of an earlier fragment, its name taken by a parameter / block variable / loop variable in later ones
   <<Const("a", I(1)), Def("f", Fn(<<"a">>, FALSE, <<Ret(Bin("+", Id("a"), I(0)))>>)), ExprS(C1(Id("f"), I(5))),
     If(T, <<Def("a", I(7)), Log(Bin("+", Id("a"), I(1)))>>, <<>>), ExprS(Arr(<<Id("a"), C1(Id("f"), I(9))>>))>>,
